@@ -12,6 +12,12 @@ def funnel_conc_job(tag, n_quick=1500, n_thorough=60000):
             "why": "the Lean-defined property monitor fails on the event log of the real funnel.Worker running fan-out branches "
                    "concurrently (real goroutine interleavings, GOMAXPROCS unrestricted, random yields)"}
 
+def funnel_shared_job(tag, n_quick=600, n_thorough=30000):
+    return {"harness": "h_funnel", "comp": "funnelshared", "driver": "funnelmon", "n_quick": n_quick, "n_thorough": n_thorough,
+            "fail_tag": tag,
+            "why": "the Lean-defined property monitor fails, for one of the sources, on the event log of 2-3 real funnel.Workers "
+                   "(one per source, own DLQ) running concurrently into one shared sink (funnel.NewSink shared boundary)"}
+
 FUNNEL_RULE = ("funnel: task tree (0-3 processors, 1-3 destination branches, optional branch processor), DLQ window config, 1-3 source "
                "batches, and plugin replies generated reactively per call (pass/modify/filter/error/split/nil, fewer/more/none; "
                "destination acks partitioned into several responses with errors, wrong/extra/out-of-order/short/empty/error responses), "
